@@ -145,6 +145,31 @@ Theorem C13_tie_CellBytes : forall ffmt tz jsonp fuel d pos typ meta uns,
 Proof. exact CellBytes_tie_strings. Qed.
 Print Assumptions C13_tie_CellBytes.
 
+(* From the Go source to the specification.  The translated Go function itself, applied to any row buffer that holds
+   the encoding of a well-formed value of a well-formed column type of this property (anything before and after it),
+   returns the canonical text of the value and the number of bytes the encoding occupies: C13_tie_CellBytes (generated
+   code = model, all inputs) composed with the cell theorems above (model on the encoder's output = specification text).
+   The hand-written model no longer occurs in the statement: it is about the translation of /repo's CellBytes, the
+   specification encoder enc_cell and the specification text only.  Premises: the buffer holds bytes, |tz| <= 86400,
+   the JSON oracle is the proved printer for JSON columns (jsonp_for), fuel >= 1000. *)
+From GB Require Import Spec.ColTypes Proofs.CellAll Proofs.SourceCells.
+Theorem C13_source_decodes : forall ffmt tz efmt jsonp fuel ty uns v pre rest,
+  In (code_of ty) [15; 253; 254; 245; 249; 250; 251; 252; 255] -> (forall i : Z, -86400 <= tz i <= 86400) ->
+  jsonp_for efmt jsonp ty -> wf_type ty = true -> wf_value ty uns v = true -> (1000 <= fuel)%nat ->
+  wf_bytes (pre ++ enc_cell ty v ++ rest) -> Z.of_nat (length pre) < 2 ^ 62 ->
+  CellBytes_g ffmt (print_timestamp tz) jsonp fuel (pre ++ enc_cell ty v ++ rest) (Z.of_nat (length pre)) (code_of ty) (meta_of ty) uns
+    = Ok (text ffmt tz efmt ty uns v, len (enc_cell ty v)).
+Proof.
+  exact (fun ffmt tz efmt jsonp fuel ty uns v pre rest H =>
+           CellBytes_decodes_encoded_on ffmt tz efmt jsonp _ fuel ty uns v pre rest (CellBytes_tie_strings ffmt tz jsonp) H).
+Qed.
+Print Assumptions C13_source_decodes.
+Example C13_source_nonvacuous :
+  CellBytes_g (fun _ _ => []) (fun _ => []) (fun _ => Err EJson) 1000 [9; 0; 9; 2; 104; 105; 7] 3 15 20 false = Ok ([104; 105], 3) /\
+  CellBytes_g (fun _ _ => []) (fun _ => []) (fun _ => Err EJson) 1000 [0; 7] 0 15 20 false = Ok ([], 1).
+Proof. split; vm_compute; reflexivity. Qed.
+
+
 (* ---------------------------------------------------------------------------------------------------------------
    Source pins.  The model functions used above are a hand-written reading of these Go functions (they have closures,
    channels, interfaces or maps, which the translator gotrans does not accept).  gosync regenerates their normalised
